@@ -30,11 +30,9 @@ package unmarshal
 //@ spec fn sameLen(ts []int64, msg []string, val []float64, tp []uint8) bool = len(ts) == len(msg) && len(msg) == len(val) && len(val) == len(tp)
 //@ spec fn knownTypes(tp []uint8) bool = forall i int :: 0 <= i && i < len(tp) ==> tp[i] < 3
 
-//@ fieldfunc logsProtoDec.onEntries(labels, timestampsNS, message, value, types)
-//@   requires same-length: sameLen(timestampsNS, message, value, types)
-//@   requires known-types: knownTypes(types)
-//@   modifies nothing
-//@ fieldfunc promMetricsProtoDec.onEntries(labels, timestampsNS, message, value, types)
+
+// Every decoder reaches the row builder through a value of this handler type.
+//@ func functype:onEntriesHandler(labels, timestampsNS, message, value, types)
 //@   requires same-length: sameLen(timestampsNS, message, value, types)
 //@   requires known-types: knownTypes(types)
 //@   modifies nothing
@@ -109,10 +107,6 @@ package unmarshal
 // Buffers of the stream being decoded: one slot per entry in each of the four arrays.
 //@ spec fn bufOK(p *pushRequestDec) bool = sameLen(p.TsNs, p.String, p.Value, p.Types) && knownTypes(p.Types)
 
-//@ fieldfunc pushRequestDec.onEntries(labels, timestampsNS, message, value, types)
-//@   requires same-length: sameLen(timestampsNS, message, value, types)
-//@   requires known-types: knownTypes(types)
-//@   modifies nothing
 
 // customErrors constructors: never nil.
 //@ func parseTime
@@ -178,3 +172,13 @@ package unmarshal
 // One stream object: buffers are emptied, filled by decodeStream and handed to
 // the row builder, which requires them to be aligned.
 //@ func (*pushRequestDec).Decode$1$1 [C03]
+
+// ---------------------------------------------------------------- single-entry decoders
+
+//@ func (*datadogRequestDec).DecodeEntry [C03]
+//@   loop 1:
+//@     modifies d.Tags
+//@ func (*influxDec).Decode [C03]
+//@   flag checks=-assert,-index
+//@ func (*otlpLogDec).Decode [C03]
+//@   flag checks=-assert
